@@ -39,8 +39,18 @@ Definition agrees (c : case) : bool :=
   | EncReq l p s r out =>
       obeq (encode_request max {| login := l; password := p; service := s; realm := r |}) out
   | EncResp ok msg out => obeq (encode_response ok msg) out
-  | DecReq evs out => olbeq (rq_out (decode_request_events max evs)) out
-  | DecResp evs out => rs_eq (decode_response_events max evs) out
+  | DecReq evs out =>
+      (* the events are the reads the implementation actually made: a model that still wants
+         input when the implementation has already answered is a disagreement, not an error *)
+      match decode_request_events max evs with
+      | RqBlocked => false
+      | r => olbeq (rq_out r) out
+      end
+  | DecResp evs out =>
+      match decode_response_events max evs with
+      | RsBlocked => false
+      | r => rs_eq r out
+      end
   | PamEnc u p out => beq (pam_request Extracted.pam_max_partlen u p) out
   end.
 
@@ -51,7 +61,7 @@ Definition spec_encreq (fs : list bytes) (out : option bytes) : bool :=
   else obeq None out.
 
 Definition spec_decreq (evs : list ev) (out : option (list bytes)) : bool :=
-  let '(s, _) := stream evs in
+  let '(s, term) := stream evs in
   if wbb O evs then
     match parse_parts max 4 s with
     | POk [l; p; sv; r] _ =>
@@ -59,6 +69,11 @@ Definition spec_decreq (evs : list ev) (out : option (list bytes)) : bool :=
         | [], _ | _, [] => olbeq None out
         | _, _ => olbeq (Some [l; p; sv; r]) out
         end
+    | PShort =>
+        (* the reads made so far are a proper prefix of a request: an answer is only
+           justified when the reader has terminated; giving up (or answering) while the
+           stream is still open is a refusal of a request that may be perfectly legal *)
+        if term then olbeq None out else false
     | _ => olbeq None out
     end
   else (* misbehaving reader: only soundness is required *)
@@ -71,10 +86,11 @@ Definition spec_decreq (evs : list ev) (out : option (list bytes)) : bool :=
     end.
 
 Definition spec_decresp (evs : list ev) (out : option (bool * bytes)) : bool :=
-  let '(s, _) := stream evs in
+  let '(s, term) := stream evs in
   if wbb O evs then
     match parse_parts max 1 s with
     | POk [t] _ => rs_eq (response_of_part t) out
+    | PShort => if term then rs_eq RsErr out else false
     | _ => rs_eq RsErr out
     end
   else true.
